@@ -96,3 +96,1293 @@ Proof. intros cf f Hf L i. unfold json_run. rewrite (filter_equals_true_identity
 
 Corollary json_run_filter_true : forall cf L i, json_run cf (Some (JBool true)) L i = json_run cf None L i.
 Proof. intros cf L i. apply json_run_filter_equals_true. reflexivity. Qed.
+
+(* ------------------------------------------------------------------------------------- *)
+(* Part 2 — the skip path accepts every text of the grammar and consumes exactly it        *)
+
+(* ---- strings: the skipping loop sees a body as plain bytes and backslash pairs ---- *)
+
+Inductive skippable : bytes -> Prop :=
+| sk_nil : skippable []
+| sk_plain : forall c r, c <> 0 -> c <> 34 -> c <> 92 -> skippable r -> skippable (c :: r)
+| sk_esc : forall e r, e <> 0 -> skippable r -> skippable (92 :: e :: r).
+
+Lemma hex_value_plain : forall d v, hex_value d = Some v -> d <> 0 /\ d <> 34 /\ d <> 92.
+Proof.
+  intros d v H. unfold hex_value in H.
+  destruct ((48 <=? d) && (d <=? 57)) eqn:A.
+  { apply andb_prop in A as [A1 A2]. apply N.leb_le in A1, A2. lia. }
+  destruct ((65 <=? d) && (d <=? 70)) eqn:B.
+  { apply andb_prop in B as [B1 B2]. apply N.leb_le in B1, B2. lia. }
+  destruct ((97 <=? d) && (d <=? 102)) eqn:C; [|discriminate].
+  apply andb_prop in C as [C1 C2]. apply N.leb_le in C1, C2. lia.
+Qed.
+
+Lemma uescape_skippable : forall t u, uescape t u -> forall r, skippable r -> skippable (t ++ r).
+Proof.
+  intros t u H r R. destruct H as [d1 d2 d3 d4 v1 v2 v3 v4 H1 H2 H3 H4].
+  destruct (hex_value_plain _ _ H1) as (A1 & B1 & C1).
+  destruct (hex_value_plain _ _ H2) as (A2 & B2 & C2).
+  destruct (hex_value_plain _ _ H3) as (A3 & B3 & C3).
+  destruct (hex_value_plain _ _ H4) as (A4 & B4 & C4).
+  cbn [app]. apply sk_esc; [lia|].
+  apply sk_plain; auto. apply sk_plain; auto. apply sk_plain; auto. apply sk_plain; auto.
+Qed.
+
+Lemma jchar_skippable : forall t b, jchar t b -> forall r, skippable r -> skippable (t ++ r).
+Proof.
+  intros t b J r R. destruct J as [c C256 C32 C34 C92 | e c HIn | t u UE NS | t1 t2 h l U1 U2 Hh Hl].
+  - cbn [app]. apply sk_plain; auto. lia.
+  - destruct (simple_escape e c HIn) as (EZ & _). cbn [app]. apply sk_esc; auto.
+  - eapply uescape_skippable; eassumption.
+  - rewrite <- app_assoc. eapply uescape_skippable; [eassumption|].
+    eapply uescape_skippable; eassumption.
+Qed.
+
+Lemma jchars_skippable : forall body str, jchars body str -> skippable body.
+Proof.
+  intros body str J. induction J as [|t1 b1 t2 b2 J1 J2 IH]; [constructor|].
+  eapply jchar_skippable; eassumption.
+Qed.
+
+Lemma skip_quoted_ok : forall body, skippable body ->
+  forall fuel s tail,
+    good s -> stream s = body ++ 34 :: tail -> (length body < fuel)%nat ->
+    exists s', skip_quoted_loop fuel 34 s = (Ok, s') /\
+               good s' /\ stream s' = tail /\ cur s' = None /\ found s' = found s.
+Proof.
+  intros body K. induction K as [|c r CZ C34 C92 K IH|e r EZ K IH]; intros fuel s tail G S L.
+  - cbn [app] in S. destruct fuel as [|fuel]; [cbn in L; lia|].
+    assert (Q : 34 <> 0) by lia.
+    destruct (next_cons s 34 tail G S Q) as (s1 & E1 & G1 & S1 & C1 & F1).
+    cbn [skip_quoted_loop]. rewrite E1, N.eqb_refl. exists (move s1). auto.
+  - cbn [app] in S. cbn [length] in L. destruct fuel as [|fuel]; [lia|].
+    destruct (next_cons s c _ G S CZ) as (s1 & E1 & G1 & S1 & C1 & F1).
+    cbn [skip_quoted_loop]. rewrite E1.
+    rewrite (eqb_false _ _ C34), (eqb_false _ _ CZ), (eqb_false _ _ C92).
+    destruct (IH fuel (move s1) tail G1 S1 ltac:(lia)) as (s' & E' & G' & S' & C' & F').
+    exists s'. splits; auto. congruence.
+  - cbn [app] in S. cbn [length] in L. destruct fuel as [|fuel]; [lia|].
+    assert (Q : 92 <> 0) by lia.
+    destruct (next_cons s 92 _ G S Q) as (s1 & E1 & G1 & S1 & C1 & F1).
+    destruct (next_cons (move s1) e _ G1 S1 EZ) as (s2 & E2 & G2 & S2 & C2 & F2).
+    cbn [skip_quoted_loop]. rewrite E1.
+    change (92 =? 34) with false. change (92 =? 0) with false. change (92 =? 92) with true.
+    cbv iota. rewrite E2. rewrite (eqb_false _ _ EZ). cbn [negb].
+    destruct (IH fuel (move s2) tail G2 S2 ltac:(lia)) as (s' & E' & G' & S' & C' & F').
+    exists s'. splits; auto. congruence.
+Qed.
+
+Lemma skip_string_ok : forall t str, jstring t str ->
+  forall fuel s tail,
+    good s -> stream s = t ++ tail -> (length t <= fuel)%nat ->
+    exists s', skip_quoted_string fuel s = (Ok, s') /\
+               good s' /\ stream s' = tail /\ cur s' = None /\ found s' = found s.
+Proof.
+  intros t str (body & -> & J) fuel s tail G S L.
+  rewrite <- !app_assoc in S. cbn [app] in S.
+  rewrite !app_length in L. cbn [length] in L.
+  assert (Q : 34 <> 0) by lia.
+  destruct (next_cons s 34 _ G S Q) as (s1 & E1 & G1 & S1 & C1 & F1).
+  unfold skip_quoted_string. rewrite E1.
+  destruct (skip_quoted_ok body (jchars_skippable _ _ J) fuel _ tail G1 S1 ltac:(lia))
+    as (s' & E' & G' & S' & C' & F').
+  exists s'. splits; auto. congruence.
+Qed.
+
+Lemma skip_key_ok : forall t str, jstring t str ->
+  forall fuel s tail,
+    good s -> stream s = t ++ tail -> (length t <= fuel)%nat ->
+    exists s', skip_key fuel s = (Ok, s') /\
+               good s' /\ stream s' = tail /\ cur s' = None /\ found s' = found s.
+Proof.
+  intros t str J fuel s tail G S L.
+  pose proof J as (body & Et & _).
+  assert (S2 : stream s = 34 :: (body ++ [34]) ++ tail) by (rewrite S, Et; reflexivity).
+  assert (Q : 34 <> 0) by lia.
+  destruct (current_cons s 34 _ G S2 Q) as (s1 & E1 & G1 & S1 & C1 & F1 & _).
+  unfold skip_key. rewrite E1. change (is_quote 34) with true. cbv iota.
+  assert (S3 : stream s1 = t ++ tail) by (rewrite S1, Et; reflexivity).
+  destruct (skip_string_ok t str J fuel s1 tail G1 S3 L) as (s' & E' & G' & S' & C' & F').
+  exists s'. splits; auto. congruence.
+Qed.
+
+(* ---- numbers ---- *)
+
+Lemma delimiter_head : forall cf rest, delimiter cf rest -> can_be_in_number cf (hd 0 rest) = false.
+Proof.
+  intros cf rest D. destruct rest as [|b r]; [apply not_numchar; auto|exact D].
+Qed.
+
+Lemma skip_numeric_all : forall cf t, Forall (fun c => can_be_in_number cf c = true) t ->
+  forall fuel s rest,
+    good s -> stream s = t ++ rest -> delimiter cf rest -> (length t < fuel)%nat ->
+    exists s', skip_numeric_loop cf fuel s = (Ok, s') /\ post s' rest /\ found s' = found s /\
+               lastc s' = hd 0 rest.
+Proof.
+  intros cf t FA. induction FA as [|c t Hc FA IH]; intros fuel s rest G S D L.
+  - cbn [app] in S. destruct fuel as [|fuel]; [cbn in L; lia|].
+    destruct (peek s rest G S) as (s2 & E2 & F2 & P2 & L2 & C2).
+    cbn [skip_numeric_loop]. rewrite E2, (delimiter_head cf rest D).
+    exists s2. splits; auto.
+  - cbn [app] in S. cbn [length] in L. destruct fuel as [|fuel]; [lia|].
+    pose proof (numchar_nonzero _ _ Hc) as CZ.
+    destruct (next_cons s c _ G S CZ) as (s1 & E1 & G1 & S1 & C1 & F1).
+    cbn [skip_numeric_loop]. rewrite E1, Hc.
+    destruct (IH fuel _ rest G1 S1 D ltac:(lia)) as (s' & E' & P' & F' & L').
+    exists s'. splits; auto. congruence.
+Qed.
+
+(* ---- skip_variant, one lemma per kind of first byte ---- *)
+
+Lemma sv_null : forall cf fuel L s s1,
+  skip_spaces cf fuel s = (Ok, s1) -> cur s1 = Some 110 ->
+  skip_variant cf fuel L s = skip_keyword kw_null s1.
+Proof.
+  intros cf fuel L s s1 E C. rewrite skip_variant_body. unfold sv_body.
+  rewrite E, (current_some _ _ C). reflexivity.
+Qed.
+
+Lemma sv_true : forall cf fuel L s s1,
+  skip_spaces cf fuel s = (Ok, s1) -> cur s1 = Some 116 ->
+  skip_variant cf fuel L s = skip_keyword kw_true s1.
+Proof.
+  intros cf fuel L s s1 E C. rewrite skip_variant_body. unfold sv_body.
+  rewrite E, (current_some _ _ C). reflexivity.
+Qed.
+
+Lemma sv_false : forall cf fuel L s s1,
+  skip_spaces cf fuel s = (Ok, s1) -> cur s1 = Some 102 ->
+  skip_variant cf fuel L s = skip_keyword kw_false s1.
+Proof.
+  intros cf fuel L s s1 E C. rewrite skip_variant_body. unfold sv_body.
+  rewrite E, (current_some _ _ C). reflexivity.
+Qed.
+
+Lemma sv_str : forall cf fuel L s s1,
+  skip_spaces cf fuel s = (Ok, s1) -> cur s1 = Some 34 ->
+  skip_variant cf fuel L s = skip_quoted_string fuel s1.
+Proof.
+  intros cf fuel L s s1 E C. rewrite skip_variant_body. unfold sv_body.
+  rewrite E, (current_some _ _ C). reflexivity.
+Qed.
+
+Lemma sv_num : forall cf fuel L s s1 c,
+  skip_spaces cf fuel s = (Ok, s1) -> cur s1 = Some c -> num_start c \/ c = 93 ->
+  skip_variant cf fuel L s = skip_numeric_loop cf fuel s1.
+Proof.
+  intros cf fuel L s s1 c E C H. rewrite skip_variant_body. unfold sv_body.
+  rewrite E, (current_some _ _ C).
+  destruct H as [[->|D]| ->]; try reflexivity.
+  apply digit_range in D. unfold is_quote. rewrite !(eqb_false c) by lia. reflexivity.
+Qed.
+
+Lemma sv_arr : forall cf fuel L s s1,
+  skip_spaces cf fuel s = (Ok, s1) -> cur s1 = Some 91 ->
+  skip_variant cf fuel (S L) s = skip_array_loop cf (skip_variant cf fuel L) fuel (move s1).
+Proof.
+  intros cf fuel L s s1 E C. rewrite skip_variant_body. unfold sv_body.
+  rewrite E, (current_some _ _ C). reflexivity.
+Qed.
+
+Lemma sv_obj : forall cf fuel L s s1,
+  skip_spaces cf fuel s = (Ok, s1) -> cur s1 = Some 123 ->
+  skip_variant cf fuel (S L) s =
+    match skip_spaces cf fuel (move s1) with
+    | (Ok, s) =>
+        let '(b, s) := eat 125 s in
+        if b then (Ok, s) else skip_object_loop cf (skip_variant cf fuel L) fuel s
+    | r => r
+    end.
+Proof.
+  intros cf fuel L s s1 E C. rewrite skip_variant_body. unfold sv_body.
+  rewrite E, (current_some _ _ C). reflexivity.
+Qed.
+
+(* ---- what follows a value inside a container (pure lexing) ---- *)
+
+Lemma sarr_step_close : forall cf k fl s1 w2 tl,
+  ws w2 -> post s1 (w2 ++ 93 :: tl) -> (length w2 < fl)%nat ->
+  exists s', sarr_step cf k fl s1 = (Ok, s') /\
+             good s' /\ stream s' = tl /\ cur s' = None /\ found s' = true.
+Proof.
+  intros cf k fl s1 w2 tl W2 P L.
+  destruct (post_good s1 w2 93 tl P W2 ltac:(lia)) as (G1 & S1).
+  destruct (skip_ws cf w2 W2 fl s1 93 tl G1 S1 ltac:(lia) eq_refl ltac:(lia) L)
+    as (s2 & E2 & G2 & S2 & C2 & F2 & _).
+  destruct (eat_yes s2 93 tl G2 S2 ltac:(lia)) as (s3 & E3 & G3 & S3 & C3 & F3).
+  unfold sarr_step. rewrite E2. cbv beta iota. rewrite E3.
+  exists s3. splits; auto. congruence.
+Qed.
+
+Lemma sarr_step_comma : forall cf k fl s1 w2 tl,
+  ws w2 -> post s1 (w2 ++ 44 :: tl) -> (length w2 < fl)%nat ->
+  exists s3, sarr_step cf k fl s1 = k s3 /\
+             good s3 /\ stream s3 = tl /\ cur s3 = None /\ found s3 = true.
+Proof.
+  intros cf k fl s1 w2 tl W2 P L.
+  destruct (post_good s1 w2 44 tl P W2 ltac:(lia)) as (G1 & S1).
+  destruct (skip_ws cf w2 W2 fl s1 44 tl G1 S1 ltac:(lia) eq_refl ltac:(lia) L)
+    as (s2 & E2 & G2 & S2 & C2 & F2 & _).
+  destruct (eat_yes s2 44 tl G2 S2 ltac:(lia)) as (s3 & E3 & G3 & S3 & C3 & F3).
+  unfold sarr_step. rewrite E2. cbv beta iota.
+  rewrite (eat_no_some s2 44 93 C2 ltac:(lia)). cbv beta iota. rewrite E3.
+  exists s3. splits; auto. congruence.
+Qed.
+
+Definition sobj_entry (cf : cfg) (sv : ps -> code * ps) (fl : nat) (s : ps) : code * ps :=
+  match skip_spaces cf fl s with
+  | (Ok, s) => skip_object_loop cf sv fl s
+  | r => r
+  end.
+
+Lemma sobj_after_close : forall cf k fl s1 w4 tl,
+  ws w4 -> post s1 (w4 ++ 125 :: tl) -> (length w4 < fl)%nat ->
+  exists s', sobj_after cf k fl s1 = (Ok, s') /\
+             good s' /\ stream s' = tl /\ cur s' = None /\ found s' = true.
+Proof.
+  intros cf k fl s1 w4 tl W4 P L.
+  destruct (post_good s1 w4 125 tl P W4 ltac:(lia)) as (G1 & S1).
+  destruct (skip_ws cf w4 W4 fl s1 125 tl G1 S1 ltac:(lia) eq_refl ltac:(lia) L)
+    as (s2 & E2 & G2 & S2 & C2 & F2 & _).
+  destruct (eat_yes s2 125 tl G2 S2 ltac:(lia)) as (s3 & E3 & G3 & S3 & C3 & F3).
+  unfold sobj_after. rewrite E2. cbv beta iota. rewrite E3.
+  exists s3. splits; auto. congruence.
+Qed.
+
+Lemma sobj_after_comma : forall cf sv fl s1 w4 tl,
+  ws w4 -> post s1 (w4 ++ 44 :: tl) -> (length w4 < fl)%nat ->
+  exists s3, sobj_after cf (skip_object_loop cf sv fl) fl s1 = sobj_entry cf sv fl s3 /\
+             good s3 /\ stream s3 = tl /\ cur s3 = None /\ found s3 = true.
+Proof.
+  intros cf sv fl s1 w4 tl W4 P L.
+  destruct (post_good s1 w4 44 tl P W4 ltac:(lia)) as (G1 & S1).
+  destruct (skip_ws cf w4 W4 fl s1 44 tl G1 S1 ltac:(lia) eq_refl ltac:(lia) L)
+    as (s2 & E2 & G2 & S2 & C2 & F2 & _).
+  destruct (eat_yes s2 44 tl G2 S2 ltac:(lia)) as (s3 & E3 & G3 & S3 & C3 & F3).
+  unfold sobj_after. rewrite E2. cbv beta iota.
+  rewrite (eat_no_some s2 44 125 C2 ltac:(lia)). cbv beta iota. rewrite E3. cbn [negb].
+  exists s3. splits; auto. congruence.
+Qed.
+
+(* the key and the colon of a member *)
+Lemma member_head : forall cf, decode_unicode cf = true ->
+  forall w1 kt k w2 tl fl s,
+    ws w1 -> jstring kt k -> ws w2 ->
+    good s -> stream s = w1 ++ kt ++ w2 ++ 58 :: tl ->
+    (length (w1 ++ kt ++ w2 ++ 58%N :: tl) < S fl)%nat ->
+    exists s1 s2 s3 s4,
+      skip_spaces cf (S fl) s = (Ok, s1) /\
+      parse_key cf fl s1 = (Ok, k, s2) /\
+      skip_spaces cf fl s2 = (Ok, s3) /\ eat 58 s3 = (true, s4) /\
+      good s4 /\ stream s4 = tl /\ cur s4 = None /\ found s4 = true.
+Proof.
+  intros cf DU w1 kt k w2 tl fl s W1 JK W2 G HS LL.
+  pose proof JK as (body & Ek & _).
+  assert (S0 : stream s = w1 ++ 34 :: ((body ++ [34]) ++ w2 ++ 58 :: tl))
+    by (rewrite HS, Ek; reflexivity).
+  destruct (skip_ws cf w1 W1 (S fl) s 34 _ G S0 ltac:(lia) eq_refl ltac:(lia) ltac:(lens))
+    as (s1 & E1 & G1 & S1 & C1 & F1 & _).
+  assert (S1' : stream s1 = kt ++ w2 ++ 58 :: tl) by (rewrite S1, Ek; reflexivity).
+  destruct (parse_key_ok cf DU kt k JK fl s1 _ G1 S1' ltac:(lens)) as (s2 & E2 & G2 & S2 & C2 & F2).
+  destruct (skip_ws cf w2 W2 fl s2 58 _ G2 S2 ltac:(lia) eq_refl ltac:(lia) ltac:(lens))
+    as (s3 & E3 & G3 & S3 & C3 & F3 & _).
+  destruct (eat_yes s3 58 _ G3 S3 ltac:(lia)) as (s4 & E4 & G4 & S4 & C4 & F4).
+  exists s1, s2, s3, s4. splits; auto. congruence.
+Qed.
+
+Lemma smember_head : forall cf,
+  forall w1 kt k w2 tl fl s,
+    ws w1 -> jstring kt k -> ws w2 ->
+    good s -> stream s = w1 ++ kt ++ w2 ++ 58 :: tl ->
+    (length (w1 ++ kt ++ w2 ++ 58%N :: tl) < S fl)%nat ->
+    exists s1 s2 s3 s4,
+      skip_spaces cf (S fl) s = (Ok, s1) /\
+      skip_key fl s1 = (Ok, s2) /\
+      skip_spaces cf fl s2 = (Ok, s3) /\ eat 58 s3 = (true, s4) /\
+      good s4 /\ stream s4 = tl /\ cur s4 = None /\ found s4 = true.
+Proof.
+  intros cf w1 kt k w2 tl fl s W1 JK W2 G HS LL.
+  pose proof JK as (body & Ek & _).
+  assert (S0 : stream s = w1 ++ 34 :: ((body ++ [34]) ++ w2 ++ 58 :: tl))
+    by (rewrite HS, Ek; reflexivity).
+  destruct (skip_ws cf w1 W1 (S fl) s 34 _ G S0 ltac:(lia) eq_refl ltac:(lia) ltac:(lens))
+    as (s1 & E1 & G1 & S1 & C1 & F1 & _).
+  assert (S1' : stream s1 = kt ++ w2 ++ 58 :: tl) by (rewrite S1, Ek; reflexivity).
+  destruct (skip_key_ok kt k JK fl s1 _ G1 S1' ltac:(lens)) as (s2 & E2 & G2 & S2 & C2 & F2).
+  destruct (skip_ws cf w2 W2 fl s2 58 _ G2 S2 ltac:(lia) eq_refl ltac:(lia) ltac:(lens))
+    as (s3 & E3 & G3 & S3 & C3 & F3 & _).
+  destruct (eat_yes s3 58 _ G3 S3 ltac:(lia)) as (s4 & E4 & G4 & S4 & C4 & F4).
+  exists s1, s2, s3, s4. splits; auto. congruence.
+Qed.
+
+(* ---- the statements proved by mutual induction on the derivation ---- *)
+
+Definition Sv (cf : cfg) (d : nat) (t : bytes) : Prop :=
+  forall L fuel s w rest,
+    ws w -> (d <= L)%nat -> good s -> stream s = w ++ t ++ rest -> delimiter cf rest ->
+    (length (w ++ t ++ rest) < fuel)%nat ->
+    exists s', skip_variant cf fuel L s = (Ok, s') /\ post s' rest /\ found s' = true.
+
+Definition Se (cf : cfg) (d : nat) (t : bytes) : Prop :=
+  forall L fuel fl s rest,
+    (d <= L)%nat -> good s -> stream s = t ++ 93 :: rest ->
+    (length (t ++ 93%N :: rest) < fuel)%nat -> (length (t ++ 93%N :: rest) < fl)%nat ->
+    exists s', skip_array_loop cf (skip_variant cf fuel L) fl s = (Ok, s') /\
+               good s' /\ stream s' = rest /\ cur s' = None /\ found s' = true.
+
+Definition Sm (cf : cfg) (d : nat) (t : bytes) : Prop :=
+  forall L fuel fl s rest,
+    (d <= L)%nat -> good s -> stream s = t ++ 125 :: rest ->
+    (length (t ++ 125%N :: rest) < fuel)%nat -> (length (t ++ 125%N :: rest) < fl)%nat ->
+    exists s', sobj_entry cf (skip_variant cf fuel L) fl s = (Ok, s') /\
+               good s' /\ stream s' = rest /\ cur s' = None /\ found s' = true.
+
+(* ---- scalars ---- *)
+
+Lemma scase_keyword : forall cf d kw k0 kr,
+  kw = k0 :: kr -> vstart k0 -> Forall (fun c => c <> 0) kw ->
+  (forall fuel L s s1, skip_spaces cf fuel s = (Ok, s1) -> cur s1 = Some k0 ->
+     skip_variant cf fuel L s = skip_keyword kw s1) ->
+  Sv cf d kw.
+Proof.
+  intros cf d kw k0 kr -> V FA U L fuel s w rest W DL G S D LF.
+  cbn [app] in S.
+  destruct (pv_enter cf w fuel s k0 _ W G S V ltac:(lens)) as (s1 & E1 & G1 & S1 & C1 & F1).
+  rewrite (U fuel L s s1 E1 C1).
+  destruct (skip_keyword_ok (k0 :: kr) s1 rest FA G1 S1) as (s' & E' & G' & S' & F').
+  exists s'. splits; auto.
+  - left. auto.
+  - congruence.
+Qed.
+
+Lemma scase_null : forall cf d, Sv cf d [110; 117; 108; 108].
+Proof.
+  intros cf d. apply (scase_keyword cf d kw_null 110 [117; 108; 108]); try reflexivity.
+  - unfold vstart; tauto.
+  - apply nz_list. reflexivity.
+  - intros. apply sv_null; assumption.
+Qed.
+
+Lemma scase_true : forall cf d, Sv cf d [116; 114; 117; 101].
+Proof.
+  intros cf d. apply (scase_keyword cf d kw_true 116 [114; 117; 101]); try reflexivity.
+  - unfold vstart; tauto.
+  - apply nz_list. reflexivity.
+  - intros. apply sv_true; assumption.
+Qed.
+
+Lemma scase_false : forall cf d, Sv cf d [102; 97; 108; 115; 101].
+Proof.
+  intros cf d. apply (scase_keyword cf d kw_false 102 [97; 108; 115; 101]); try reflexivity.
+  - unfold vstart; tauto.
+  - apply nz_list. reflexivity.
+  - intros. apply sv_false; assumption.
+Qed.
+
+Lemma scase_num : forall cf d t, jnumber t -> Sv cf d t.
+Proof.
+  intros cf d t J L fuel s w rest W DL G S D LF.
+  destruct (jnumber_chars cf t J) as [FA (c & r & Et & NS)].
+  assert (S0 : stream s = w ++ c :: (r ++ rest)) by (rewrite S, Et; reflexivity).
+  assert (V : vstart c) by (unfold vstart; tauto).
+  destruct (pv_enter cf w fuel s c _ W G S0 V ltac:(lens)) as (s1 & E1 & G1 & S1 & C1 & F1).
+  rewrite (sv_num cf fuel L s s1 c E1 C1 (or_introl NS)).
+  assert (S2 : stream s1 = t ++ rest) by (rewrite S1, Et; reflexivity).
+  destruct (skip_numeric_all cf t FA fuel s1 rest G1 S2 D ltac:(lens)) as (s' & E' & P' & F' & L').
+  exists s'. splits; auto. congruence.
+Qed.
+
+Lemma scase_str : forall cf d t str, jstring t str -> Sv cf d t.
+Proof.
+  intros cf d t str J L fuel s w rest W DL G S D LF.
+  pose proof J as (body & Et & _).
+  assert (S0 : stream s = w ++ 34 :: ((body ++ [34]) ++ rest)) by (rewrite S, Et; reflexivity).
+  assert (V : vstart 34) by (unfold vstart; tauto).
+  destruct (pv_enter cf w fuel s 34 _ W G S0 V ltac:(lens)) as (s1 & E1 & G1 & S1 & C1 & F1).
+  rewrite (sv_str cf fuel L s s1 E1 C1).
+  assert (S2 : stream s1 = t ++ rest) by (rewrite S1, Et; reflexivity).
+  destruct (skip_string_ok t str J fuel s1 rest G1 S2 ltac:(lens)) as (s' & E' & G' & S' & C' & F').
+  exists s'. splits; auto.
+  - left. auto.
+  - congruence.
+Qed.
+
+(* ---- arrays ---- *)
+
+Lemma scase_arr_empty : forall cf d w0, ws w0 -> Sv cf (S d) ([91] ++ w0 ++ [93]).
+Proof.
+  intros cf d w0 W0 L fuel s w rest W DL G HS D LF.
+  destruct L as [|L]; [lia|].
+  rewrite <- !app_assoc in HS. cbn [app] in HS.
+  assert (V : vstart 91) by (unfold vstart; tauto).
+  destruct (pv_enter cf w fuel s 91 _ W G HS V ltac:(lens)) as (s1 & E1 & G1 & S1 & C1 & F1).
+  rewrite (sv_arr cf fuel L s s1 E1 C1).
+  destruct (move_cons s1 91 _ G1 C1 S1) as (G2 & S2 & C2 & F2).
+  destruct fuel as [|fuel0]; [lia|]. rewrite skip_array_loop_S.
+  (* the element skipper runs on the closing bracket: it consumes nothing *)
+  destruct (skip_ws cf w0 W0 (S fuel0) (move s1) 93 rest G2 S2 ltac:(lia) eq_refl ltac:(lia) ltac:(lens))
+    as (s3 & E3 & G3 & S3 & C3 & F3 & _).
+  rewrite (sv_num cf (S fuel0) L (move s1) s3 93 E3 C3 (or_intror eq_refl)).
+  cbn [skip_numeric_loop]. rewrite (current_some _ _ C3).
+  rewrite (not_numchar cf 93) by tauto.
+  destruct (sarr_step_close cf (skip_array_loop cf (skip_variant cf (S fuel0) L) fuel0) fuel0 s3 [] rest
+              ws_nil (or_introl (conj G3 S3)) ltac:(lens)) as (s' & E' & G' & S' & C' & F').
+  rewrite E'. exists s'. splits; auto. left; auto.
+Qed.
+
+Lemma scase_e_one : forall cf d w1 t w2, ws w1 -> Sv cf d t -> ws w2 -> Se cf d (w1 ++ t ++ w2).
+Proof.
+  intros cf d w1 t w2 W1 IH W2 L fuel fl s rest DL G S LF LL.
+  rewrite <- !app_assoc in S, LF, LL.
+  destruct fl as [|fl]; [lia|]. rewrite skip_array_loop_S.
+  destruct (IH L fuel s w1 (w2 ++ 93 :: rest) W1 DL G S
+              (delimiter_ws_then cf w2 93 rest W2 ltac:(tauto)) LF) as (s1 & E1 & P1 & F1).
+  rewrite E1.
+  destruct (sarr_step_close cf (skip_array_loop cf (skip_variant cf fuel L) fl) fl s1 w2 rest W2 P1
+              ltac:(lens)) as (s' & E' & R').
+  rewrite E'. exists s'. auto.
+Qed.
+
+Lemma scase_e_cons : forall cf d w1 t w2 r,
+  ws w1 -> Sv cf d t -> ws w2 -> Se cf d r -> Se cf d (w1 ++ t ++ w2 ++ [44] ++ r).
+Proof.
+  intros cf d w1 t w2 r W1 IHv W2 IHr L fuel fl s rest DL G S LF LL.
+  rewrite <- !app_assoc in S, LF, LL. cbn [app] in S, LF, LL.
+  destruct fl as [|fl]; [lia|]. rewrite skip_array_loop_S.
+  destruct (IHv L fuel s w1 (w2 ++ 44 :: r ++ 93 :: rest) W1 DL G S
+              (delimiter_ws_then cf w2 44 _ W2 ltac:(tauto)) LF) as (s1 & E1 & P1 & F1).
+  rewrite E1.
+  destruct (sarr_step_comma cf (skip_array_loop cf (skip_variant cf fuel L) fl) fl s1 w2 _ W2 P1
+              ltac:(lens)) as (s3 & E3 & G3 & S3 & C3 & F3).
+  rewrite E3.
+  apply (IHr L fuel fl s3 rest DL G3 S3); lens.
+Qed.
+
+Lemma scase_arr : forall cf d te, Se cf d te -> Sv cf (S d) ([91] ++ te ++ [93]).
+Proof.
+  intros cf d te IH L fuel s w rest W DL G HS D LF.
+  destruct L as [|L]; [lia|].
+  rewrite <- !app_assoc in HS. cbn [app] in HS.
+  assert (V : vstart 91) by (unfold vstart; tauto).
+  destruct (pv_enter cf w fuel s 91 _ W G HS V ltac:(lens)) as (s1 & E1 & G1 & S1 & C1 & F1).
+  rewrite (sv_arr cf fuel L s s1 E1 C1).
+  destruct (move_cons s1 91 _ G1 C1 S1) as (G2 & S2 & C2 & F2).
+  destruct (IH L fuel fuel (move s1) rest ltac:(lia) G2 S2 ltac:(lens) ltac:(lens))
+    as (s' & E' & G' & S' & C' & F').
+  exists s'. splits; auto. left; auto.
+Qed.
+
+(* ---- objects ---- *)
+
+Lemma scase_obj_empty : forall cf d w0, ws w0 -> Sv cf (S d) ([123] ++ w0 ++ [125]).
+Proof.
+  intros cf d w0 W0 L fuel s w rest W DL G HS D LF.
+  destruct L as [|L]; [lia|].
+  rewrite <- !app_assoc in HS. cbn [app] in HS.
+  assert (V : vstart 123) by (unfold vstart; tauto).
+  destruct (pv_enter cf w fuel s 123 _ W G HS V ltac:(lens)) as (s1 & E1 & G1 & S1 & C1 & F1).
+  rewrite (sv_obj cf fuel L s s1 E1 C1).
+  destruct (move_cons s1 123 _ G1 C1 S1) as (G2 & S2 & C2 & F2).
+  destruct (skip_ws cf w0 W0 fuel (move s1) 125 rest G2 S2 ltac:(lia) eq_refl ltac:(lia) ltac:(lens))
+    as (s3 & E3 & G3 & S3 & C3 & F3 & _).
+  rewrite E3. cbv beta iota.
+  destruct (eat_yes s3 125 rest G3 S3 ltac:(lia)) as (s4 & E4 & G4 & S4 & C4 & F4).
+  rewrite E4. exists s4. splits; auto.
+  - left; auto.
+  - congruence.
+Qed.
+
+Lemma scase_m_one : forall cf d w1 kt k w2 w3 t w4,
+  ws w1 -> jstring kt k -> ws w2 -> ws w3 -> Sv cf d t -> ws w4 ->
+  Sm cf d (w1 ++ kt ++ w2 ++ [58] ++ w3 ++ t ++ w4).
+Proof.
+  intros cf d w1 kt k w2 w3 t w4 W1 JK W2 W3 IH W4 L fuel fl s rest DL G HS LF LL.
+  rewrite <- !app_assoc in HS, LF, LL. cbn [app] in HS, LF, LL.
+  destruct fl as [|fl]; [lia|].
+  destruct (smember_head cf w1 kt k w2 _ fl s W1 JK W2 G HS LL)
+    as (s1 & s2 & s3 & s4 & E1 & E2 & E3 & E4 & G4 & S4 & C4 & F4).
+  unfold sobj_entry. rewrite E1, skip_object_loop_S, E2, E3. cbv beta iota. rewrite E4. cbn [negb].
+  destruct (IH L fuel s4 w3 (w4 ++ 125 :: rest) W3 DL G4 S4
+              (delimiter_ws_then cf w4 125 rest W4 ltac:(tauto)) ltac:(lens)) as (s5 & E5 & P5 & F5).
+  rewrite E5.
+  destruct (sobj_after_close cf (skip_object_loop cf (skip_variant cf fuel L) fl) fl s5 w4 rest W4 P5
+              ltac:(lens)) as (s' & E' & R').
+  rewrite E'. exists s'. auto.
+Qed.
+
+Lemma scase_m_cons : forall cf d w1 kt k w2 w3 t w4 r,
+  ws w1 -> jstring kt k -> ws w2 -> ws w3 -> Sv cf d t -> ws w4 -> Sm cf d r ->
+  Sm cf d (w1 ++ kt ++ w2 ++ [58] ++ w3 ++ t ++ w4 ++ [44] ++ r).
+Proof.
+  intros cf d w1 kt k w2 w3 t w4 r W1 JK W2 W3 IHv W4 IHr L fuel fl s rest DL G HS LF LL.
+  rewrite <- !app_assoc in HS, LF, LL. cbn [app] in HS, LF, LL.
+  destruct fl as [|fl]; [lia|].
+  destruct (smember_head cf w1 kt k w2 _ fl s W1 JK W2 G HS LL)
+    as (s1 & s2 & s3 & s4 & E1 & E2 & E3 & E4 & G4 & S4 & C4 & F4).
+  unfold sobj_entry at 1. rewrite E1, skip_object_loop_S, E2, E3. cbv beta iota. rewrite E4. cbn [negb].
+  destruct (IHv L fuel s4 w3 (w4 ++ 44 :: r ++ 125 :: rest) W3 DL G4 S4
+              (delimiter_ws_then cf w4 44 _ W4 ltac:(tauto)) ltac:(lens)) as (s5 & E5 & P5 & F5).
+  rewrite E5.
+  destruct (sobj_after_comma cf (skip_variant cf fuel L) fl s5 w4 _ W4 P5 ltac:(lens))
+    as (s7 & E7 & G7 & S7 & C7 & F7).
+  rewrite E7.
+  apply (IHr L fuel fl s7 rest DL G7 S7); lens.
+Qed.
+
+Lemma scase_obj : forall cf nd d te ms,
+  jmembersD nd d te ms -> Sm cf d te -> Sv cf (S d) ([123] ++ te ++ [125]).
+Proof.
+  intros cf nd d te ms J IH L fuel s w rest W DL G HS D LF.
+  destruct L as [|L]; [lia|].
+  rewrite <- !app_assoc in HS. cbn [app] in HS.
+  assert (V : vstart 123) by (unfold vstart; tauto).
+  destruct (pv_enter cf w fuel s 123 _ W G HS V ltac:(lens)) as (s1 & E1 & G1 & S1 & C1 & F1).
+  rewrite (sv_obj cf fuel L s s1 E1 C1).
+  destruct (move_cons s1 123 _ G1 C1 S1) as (G2 & S2 & C2 & F2).
+  destruct (jmembersD_head _ _ _ _ J) as (w1 & r & W1 & Ete).
+  assert (S2' : stream (move s1) = w1 ++ 34 :: (r ++ 125 :: rest))
+    by (rewrite S2, Ete, <- app_assoc; reflexivity).
+  assert (LW : (length w1 < fuel)%nat) by (rewrite Ete in LF; lens).
+  destruct (skip_ws cf w1 W1 fuel (move s1) 34 _ G2 S2' ltac:(lia) eq_refl ltac:(lia) LW)
+    as (s3 & E3 & G3 & S3 & C3 & F3 & _).
+  rewrite E3. cbv beta iota.
+  rewrite (eat_no_some s3 34 125 C3 ltac:(lia)). cbv beta iota.
+  destruct (IH L fuel fuel (move s1) rest ltac:(lia) G2 S2 ltac:(lens) ltac:(lens))
+    as (s' & E' & G' & S' & C' & F').
+  unfold sobj_entry in E'. rewrite E3 in E'.
+  rewrite E'. exists s'. splits; auto. left; auto.
+Qed.
+
+(* ---- tying the knot ---- *)
+
+Lemma skip_all : forall cf nd,
+  (forall d t v, jvalueD nd d t v -> Sv cf d t) /\
+  (forall d t vs, jelementsD nd d t vs -> Se cf d t) /\
+  (forall d t ms, jmembersD nd d t ms -> Sm cf d t).
+Proof.
+  intros cf nd.
+  apply (jvalueD_mutind nd (fun d t _ => Sv cf d t) (fun d t _ => Se cf d t) (fun d t _ => Sm cf d t)).
+  - intro d. apply scase_null.
+  - intro d. apply scase_true.
+  - intro d. apply scase_false.
+  - intros d t v J N. apply scase_num; assumption.
+  - intros d t s J. eapply scase_str; eassumption.
+  - intros d w W. apply scase_arr_empty; assumption.
+  - intros d t vs J IH. apply scase_arr; assumption.
+  - intros d w W. apply scase_obj_empty; assumption.
+  - intros d t ms J IH. eapply scase_obj; eassumption.
+  - intros d w1 t v w2 W1 _ IH W2. apply scase_e_one; assumption.
+  - intros d w1 t v w2 r vs W1 _ IHv W2 _ IHr. apply scase_e_cons; assumption.
+  - intros d w1 kt k w2 w3 t v w4 W1 JK W2 W3 _ IH W4. eapply scase_m_one; eassumption.
+  - intros d w1 kt k w2 w3 t v w4 r ms W1 JK W2 W3 _ IHv W4 _ IHr. eapply scase_m_cons; eassumption.
+Qed.
+
+Theorem skip_variant_complete_ws : forall cf nd d t v, jvalueD nd d t v ->
+  forall L fuel s w rest,
+    ws w -> (d <= L)%nat -> good s -> stream s = w ++ t ++ rest -> delimiter cf rest ->
+    (length (w ++ t ++ rest) < fuel)%nat ->
+    exists s', skip_variant cf fuel L s = (Ok, s') /\ post s' rest /\ found s' = true.
+Proof. intros cf nd d t v J. exact (proj1 (skip_all cf nd) d t v J). Qed.
+
+Theorem skip_variant_complete : forall cf, decode_unicode cf = true ->
+  forall d t v, jvalueD (num_den cf) d t v ->
+  forall L fuel s rest, (d <= L)%nat -> good s -> stream s = t ++ rest -> delimiter cf rest ->
+    (length (t ++ rest) < fuel)%nat ->
+    exists s', skip_variant cf fuel L s = (Ok, s') /\ post s' rest /\ found s' = true.
+Proof.
+  intros cf _ d t v J L fuel s rest DL G HS D LF.
+  exact (skip_variant_complete_ws cf (num_den cf) d t v J L fuel s [] rest ws_nil DL G HS D LF).
+Qed.
+
+(* ------------------------------------------------------------------------------------- *)
+(* Part 3 — reading with a filter = projecting the unfiltered value                         *)
+
+(* ---- the projection, equation by equation ---- *)
+
+Fixpoint pgo (fl ms : list (bytes * jv)) : list (bytes * jv) :=
+  match ms with
+  | [] => []
+  | (k, x) :: ms' =>
+      match entry_for fl k with
+      | Some e => if truthy e then (k, project e x) :: pgo fl ms' else pgo fl ms'
+      | None => pgo fl ms'
+      end
+  end.
+
+Lemma project_obj : forall fl ms, project (JObj fl) (JObj ms) = JObj (pgo fl ms).
+Proof.
+  intros fl ms. cbn [project equals_true]. f_equal.
+  induction ms as [|[k x] ms IH]; [reflexivity|].
+  cbn [pgo]. rewrite <- IH. reflexivity.
+Qed.
+
+Lemma project_true : forall f v, equals_true f = true -> project f v = v.
+Proof. intros f v H. destruct v; cbn [project]; rewrite H; reflexivity. Qed.
+
+Definition is_scalar (v : jv) : bool := match v with JArr _ | JObj _ => false | _ => true end.
+
+Lemma project_scalar : forall f v, equals_true f = false -> is_scalar v = true -> project f v = JNull.
+Proof. intros f v H K. destruct v; try discriminate K; cbn [project]; rewrite H; reflexivity. Qed.
+
+Lemma project_arr : forall f vs, equals_true f = false ->
+  project f (JArr vs) =
+  match f with
+  | JArr (e :: _) => if truthy e then JArr (map (project e) vs) else JArr []
+  | JArr [] => JArr []
+  | _ => JNull
+  end.
+Proof. intros f vs H. cbn [project]. rewrite H. reflexivity. Qed.
+
+Lemma project_obj_other : forall f ms, equals_true f = false -> is_obj f = false ->
+  project f (JObj ms) = JNull.
+Proof. intros f ms H K. cbn [project]. rewrite H. destruct f; try reflexivity. discriminate K. Qed.
+
+(* the filter applied to the member k of an object under the filter {fl} *)
+Definition mfilt (fl : list (bytes * jv)) (k : bytes) : jv :=
+  or_star (JObj fl) (obj_member (JObj fl) k).
+
+Lemma f_member_obj : forall fl k, f_member (Some (JObj fl)) k = Some (mfilt fl k).
+Proof. reflexivity. Qed.
+
+Lemma mfilt_entry : forall fl k,
+  mfilt fl k = match entry_for fl k with Some e => e | None => JNull end.
+Proof.
+  intros fl k. unfold mfilt, or_star, obj_member, entry_for, star, star_key.
+  destruct (assoc_get k fl); reflexivity.
+Qed.
+
+Lemma pgo_cons : forall fl k x ms,
+  pgo fl ((k, x) :: ms) =
+  if truthy (mfilt fl k) then (k, project (mfilt fl k) x) :: pgo fl ms else pgo fl ms.
+Proof.
+  intros fl k x ms. cbn [pgo]. rewrite mfilt_entry. destruct (entry_for fl k); reflexivity.
+Qed.
+
+Lemma beq_refl : forall k, bytes_eqb k k = true.
+Proof. intro k. apply bytes_eqb_eq. reflexivity. Qed.
+
+(* projecting commutes with the merge of repeated keys: both occurrences of a key get the same
+   entry of the filter, so they are kept or dropped together *)
+Lemma pgo_assoc_set : forall fl k v acc,
+  pgo fl (assoc_set k v acc) =
+  if truthy (mfilt fl k) then assoc_set k (project (mfilt fl k) v) (pgo fl acc) else pgo fl acc.
+Proof.
+  intros fl k v acc. induction acc as [|[k' v'] acc IH].
+  - cbn [assoc_set]. rewrite pgo_cons. cbn [pgo assoc_set]. reflexivity.
+  - cbn [assoc_set]. destruct (bytes_eqb k k') eqn:E.
+    + apply bytes_eqb_eq in E. subst k'. rewrite !pgo_cons.
+      destruct (truthy (mfilt fl k)); [|reflexivity].
+      cbn [assoc_set]. rewrite beq_refl. reflexivity.
+    + rewrite !pgo_cons, IH.
+      destruct (truthy (mfilt fl k)), (truthy (mfilt fl k')); cbn [assoc_set]; rewrite ?E; reflexivity.
+Qed.
+
+Lemma pgo_obj_den : forall fl ms acc,
+  pgo fl (obj_den ms acc) = obj_den (pgo fl ms) (pgo fl acc).
+Proof.
+  intros fl ms. induction ms as [|[k v] ms IH]; intro acc; [reflexivity|].
+  unfold obj_den in *. cbn [fold_left fst snd]. rewrite IH, pgo_assoc_set, pgo_cons.
+  destruct (truthy (mfilt fl k)); reflexivity.
+Qed.
+
+Lemma num_den_is_scalar : forall cf t v, num_den cf t v -> is_scalar v = true.
+Proof.
+  intros cf t v [_ H]. destruct (parse_number cf t); cbn [jv_of_number] in H; try discriminate;
+    injection H as <-; try reflexivity.
+  unfold jv_of_double. destruct (use_double cf); [|reflexivity].
+  match goal with |- context [if ?b then _ else _] => destruct b end; reflexivity.
+Qed.
+
+(* ---- parse_variant under a filter that is not `true`, by kind of first byte ---- *)
+
+Lemma pvf_scalar : forall cf fuel L f s s1 c,
+  equals_true f = false ->
+  skip_spaces cf fuel s = (Ok, s1) -> cur s1 = Some c -> c <> 91 -> c <> 123 ->
+  parse_variant cf fuel L (Some f) s = lift (skip_variant cf fuel L s).
+Proof.
+  intros cf fuel L f s s1 c Hf E C N91 N123.
+  rewrite parse_variant_body, skip_variant_body. unfold pv_body, sv_body.
+  rewrite E, (current_some _ _ C). rewrite (eqb_false _ _ N91), (eqb_false _ _ N123).
+  unfold pv_scalar. cbn [f_allow_value]. rewrite Hf.
+  destruct (is_quote c); [reflexivity|].
+  destruct (c =? 116). { unfold lift. destruct (skip_keyword kw_true s1). reflexivity. }
+  destruct (c =? 102). { unfold lift. destruct (skip_keyword kw_false s1). reflexivity. }
+  destruct (c =? 110); reflexivity.
+Qed.
+
+Lemma pvf_skip_container : forall cf fuel L f s s1 c,
+  equals_true f = false ->
+  skip_spaces cf fuel s = (Ok, s1) -> cur s1 = Some c ->
+  (c = 91 /\ is_arr f = false) \/ (c = 123 /\ is_obj f = false) ->
+  parse_variant cf fuel L (Some f) s = lift (skip_variant cf fuel L s1).
+Proof.
+  intros cf fuel L f s s1 c Hf E C H.
+  rewrite parse_variant_body. unfold pv_body.
+  rewrite E, (current_some _ _ C).
+  destruct H as [[-> K]|[-> K]]; cbn [N.eqb Pos.eqb f_allow_array f_allow_object];
+    rewrite Hf, K; reflexivity.
+Qed.
+
+Lemma pvf_arr : forall cf fuel L fl s s1,
+  skip_spaces cf fuel s = (Ok, s1) -> cur s1 = Some 91 ->
+  parse_variant cf fuel (S L) (Some (JArr fl)) s =
+    match skip_spaces cf fuel (move s1) with
+    | (Ok, s) =>
+        let '(b, s) := eat 93 s in
+        if b then (Ok, JArr [], s)
+        else array_loop cf (parse_variant cf fuel L) (skip_variant cf fuel L) fuel
+                        (Some (hd JNull fl)) [] s
+    | (e, s) => (e, JArr [], s)
+    end.
+Proof.
+  intros cf fuel L fl s s1 E C. rewrite parse_variant_body. unfold pv_body.
+  rewrite E, (current_some _ _ C). destruct fl; reflexivity.
+Qed.
+
+Lemma pvf_obj : forall cf fuel L fl s s1,
+  skip_spaces cf fuel s = (Ok, s1) -> cur s1 = Some 123 ->
+  parse_variant cf fuel (S L) (Some (JObj fl)) s =
+    match skip_spaces cf fuel (move s1) with
+    | (Ok, s) =>
+        let '(b, s) := eat 125 s in
+        if b then (Ok, JObj [], s)
+        else object_loop cf (parse_variant cf fuel L) (skip_variant cf fuel L) fuel
+                         (Some (JObj fl)) [] s
+    | (e, s) => (e, JObj [], s)
+    end.
+Proof.
+  intros cf fuel L fl s s1 E C. rewrite parse_variant_body. unfold pv_body.
+  rewrite E, (current_some _ _ C). reflexivity.
+Qed.
+
+Lemma sv_skip_eq : forall cf fuel L s s1 c,
+  skip_spaces cf fuel s = (Ok, s1) -> cur s1 = Some c -> found s1 = true -> vstart c ->
+  skip_variant cf fuel L s1 = skip_variant cf fuel L s.
+Proof.
+  intros cf fuel L s s1 c E C F V. destruct (vstart_props c V) as (A & B & D & _).
+  destruct fuel as [|fuel]; [discriminate E|].
+  rewrite !skip_variant_body. unfold sv_body.
+  rewrite E, (skip_fix cf fuel s1 c C F A B D). reflexivity.
+Qed.
+
+Lemma array_loop_skip_gen : forall cf fuel L fl ef acc s s1 c,
+  skip_spaces cf fuel s = (Ok, s1) -> cur s1 = Some c -> found s1 = true -> vstart c ->
+  array_loop cf (parse_variant cf fuel L) (skip_variant cf fuel L) (S fl) ef acc s1 =
+  array_loop cf (parse_variant cf fuel L) (skip_variant cf fuel L) (S fl) ef acc s.
+Proof.
+  intros cf fuel L fl ef acc s s1 c E C F V. rewrite !array_loop_S.
+  rewrite (pv_skip_eq cf fuel L ef s s1 c E C F V), (sv_skip_eq cf fuel L s s1 c E C F V).
+  reflexivity.
+Qed.
+
+(* an element filter that is not true-ish: every element is skipped *)
+Lemma array_loop_noallow : forall cf pv sv ef, f_allow ef = false ->
+  forall fl acc s,
+    array_loop cf pv sv fl ef acc s =
+    (let '(e, s') := skip_array_loop cf sv fl s in (e, JArr acc, s')).
+Proof.
+  intros cf pv sv ef H. induction fl as [|fl IH]; intros acc s; [reflexivity|].
+  rewrite array_loop_S, skip_array_loop_S, H.
+  destruct (sv s) as [e1 s1]. destruct e1; try reflexivity.
+  unfold arr_step, sarr_step.
+  destruct (skip_spaces cf fl s1) as [e2 s2]. destruct e2; try reflexivity.
+  destruct (eat 93 s2) as [b s3]. destruct b; [reflexivity|].
+  destruct (eat 44 s3) as [b s4]. destruct b; [apply IH|reflexivity].
+Qed.
+
+(* ---- what follows a value inside a container (pure lexing), parsing loops ---- *)
+
+Lemma arr_step_close : forall cf k fl acc s1 w2 tl,
+  ws w2 -> post s1 (w2 ++ 93 :: tl) -> (length w2 < fl)%nat ->
+  exists s', arr_step cf k fl acc s1 = (Ok, JArr acc, s') /\
+             good s' /\ stream s' = tl /\ cur s' = None /\ found s' = true.
+Proof.
+  intros cf k fl acc s1 w2 tl W2 P L.
+  destruct (post_good s1 w2 93 tl P W2 ltac:(lia)) as (G1 & S1).
+  destruct (skip_ws cf w2 W2 fl s1 93 tl G1 S1 ltac:(lia) eq_refl ltac:(lia) L)
+    as (s2 & E2 & G2 & S2 & C2 & F2 & _).
+  destruct (eat_yes s2 93 tl G2 S2 ltac:(lia)) as (s3 & E3 & G3 & S3 & C3 & F3).
+  unfold arr_step. rewrite E2. cbv beta iota. rewrite E3.
+  exists s3. splits; auto. congruence.
+Qed.
+
+Lemma arr_step_comma : forall cf k fl acc s1 w2 tl,
+  ws w2 -> post s1 (w2 ++ 44 :: tl) -> (length w2 < fl)%nat ->
+  exists s3, arr_step cf k fl acc s1 = k acc s3 /\
+             good s3 /\ stream s3 = tl /\ cur s3 = None /\ found s3 = true.
+Proof.
+  intros cf k fl acc s1 w2 tl W2 P L.
+  destruct (post_good s1 w2 44 tl P W2 ltac:(lia)) as (G1 & S1).
+  destruct (skip_ws cf w2 W2 fl s1 44 tl G1 S1 ltac:(lia) eq_refl ltac:(lia) L)
+    as (s2 & E2 & G2 & S2 & C2 & F2 & _).
+  destruct (eat_yes s2 44 tl G2 S2 ltac:(lia)) as (s3 & E3 & G3 & S3 & C3 & F3).
+  unfold arr_step. rewrite E2. cbv beta iota.
+  rewrite (eat_no_some s2 44 93 C2 ltac:(lia)). cbv beta iota. rewrite E3.
+  exists s3. splits; auto. congruence.
+Qed.
+
+Lemma obj_after_close : forall cf k fl acc s1 w4 tl,
+  ws w4 -> post s1 (w4 ++ 125 :: tl) -> (length w4 < fl)%nat ->
+  exists s', obj_after cf k fl acc s1 = (Ok, JObj acc, s') /\
+             good s' /\ stream s' = tl /\ cur s' = None /\ found s' = true.
+Proof.
+  intros cf k fl acc s1 w4 tl W4 P L.
+  destruct (post_good s1 w4 125 tl P W4 ltac:(lia)) as (G1 & S1).
+  destruct (skip_ws cf w4 W4 fl s1 125 tl G1 S1 ltac:(lia) eq_refl ltac:(lia) L)
+    as (s2 & E2 & G2 & S2 & C2 & F2 & _).
+  destruct (eat_yes s2 125 tl G2 S2 ltac:(lia)) as (s3 & E3 & G3 & S3 & C3 & F3).
+  unfold obj_after. rewrite E2. cbv beta iota. rewrite E3.
+  exists s3. splits; auto. congruence.
+Qed.
+
+Lemma obj_after_comma : forall cf pv sv f fl acc s1 w4 tl,
+  ws w4 -> post s1 (w4 ++ 44 :: tl) -> (length w4 < fl)%nat ->
+  exists s3, obj_after cf (object_loop cf pv sv fl f) fl acc s1 = obj_entry cf pv sv fl f acc s3 /\
+             good s3 /\ stream s3 = tl /\ cur s3 = None /\ found s3 = true.
+Proof.
+  intros cf pv sv f fl acc s1 w4 tl W4 P L.
+  destruct (post_good s1 w4 44 tl P W4 ltac:(lia)) as (G1 & S1).
+  destruct (skip_ws cf w4 W4 fl s1 44 tl G1 S1 ltac:(lia) eq_refl ltac:(lia) L)
+    as (s2 & E2 & G2 & S2 & C2 & F2 & _).
+  destruct (eat_yes s2 44 tl G2 S2 ltac:(lia)) as (s3 & E3 & G3 & S3 & C3 & F3).
+  unfold obj_after. rewrite E2. cbv beta iota.
+  rewrite (eat_no_some s2 44 125 C2 ltac:(lia)). cbv beta iota. rewrite E3. cbn [negb].
+  exists s3. splits; auto. congruence.
+Qed.
+
+(* ---- the statements proved by mutual induction on the derivation ---- *)
+
+Definition Fconcl (cf : cfg) (d : nat) (t : bytes) (v : jv) (f : jv) : Prop :=
+  forall L fuel s w rest,
+    ws w -> (d <= L)%nat -> good s -> stream s = w ++ t ++ rest -> delimiter cf rest ->
+    (length (w ++ t ++ rest) < fuel)%nat ->
+    exists s', parse_variant cf fuel L (Some f) s = (Ok, project f v, s') /\ post s' rest /\
+               found s' = true /\ (is_number (project f v) = true -> lastc s' = hd 0 rest).
+
+Definition Fv (cf : cfg) (d : nat) (t : bytes) (v : jv) : Prop := forall f, Fconcl cf d t v f.
+
+Definition Fe (cf : cfg) (d : nat) (t : bytes) (vs : list jv) : Prop :=
+  forall e L fuel fl s rest acc,
+    truthy e = true ->
+    (d <= L)%nat -> good s -> stream s = t ++ 93 :: rest ->
+    (length (t ++ 93%N :: rest) < fuel)%nat -> (length (t ++ 93%N :: rest) < fl)%nat ->
+    exists s', array_loop cf (parse_variant cf fuel L) (skip_variant cf fuel L) fl (Some e) acc s
+                 = (Ok, JArr (acc ++ map (project e) vs), s') /\
+               good s' /\ stream s' = rest /\ cur s' = None /\ found s' = true.
+
+Definition Fm (cf : cfg) (d : nat) (t : bytes) (ms : list (bytes * jv)) : Prop :=
+  forall flt L fuel fl s rest acc,
+    (d <= L)%nat -> good s -> stream s = t ++ 125 :: rest ->
+    (length (t ++ 125%N :: rest) < fuel)%nat -> (length (t ++ 125%N :: rest) < fl)%nat ->
+    exists s', obj_entry cf (parse_variant cf fuel L) (skip_variant cf fuel L) fl (Some (JObj flt)) acc s
+                 = (Ok, JObj (obj_den (pgo flt ms) acc), s') /\
+               good s' /\ stream s' = rest /\ cur s' = None /\ found s' = true.
+
+(* a filter that equals true: the unfiltered reader *)
+Lemma fconcl_true : forall cf, decode_unicode cf = true ->
+  forall d t v, jvalueD (num_den cf) d t v ->
+  forall f, equals_true f = true -> Fconcl cf d t v f.
+Proof.
+  intros cf DU d t v J f Hf L fuel s w rest W DL G HS D LF.
+  rewrite (filter_equals_true_identity cf f Hf), (project_true f v Hf).
+  exact (parse_variant_complete_ws cf DU d t v J L fuel s w rest W DL G HS D LF).
+Qed.
+
+(* a scalar under a filter that is not true: skipped, null *)
+Lemma fconcl_scalar : forall cf nd d t v c r,
+  jvalueD nd d t v -> t = c :: r -> vstart c -> c <> 91 -> c <> 123 -> is_scalar v = true ->
+  forall f, equals_true f = false -> Fconcl cf d t v f.
+Proof.
+  intros cf nd d t v c r J Et V N91 N123 SC f Hf L fuel s w rest W DL G HS D LF.
+  assert (S0 : stream s = w ++ c :: (r ++ rest)) by (rewrite HS, Et; reflexivity).
+  destruct (pv_enter cf w fuel s c _ W G S0 V ltac:(lens)) as (s1 & E1 & G1 & S1 & C1 & F1).
+  rewrite (pvf_scalar cf fuel L f s s1 c Hf E1 C1 N91 N123), (project_scalar f v Hf SC).
+  destruct (skip_variant_complete_ws cf nd d t v J L fuel s w rest W DL G HS D LF)
+    as (s' & E' & P' & F').
+  rewrite E'. exists s'. splits; auto. discriminate.
+Qed.
+
+(* a container under a filter of another kind: skipped, null *)
+Lemma fconcl_container_skip : forall cf nd d t v c r f,
+  jvalueD nd d t v -> t = c :: r ->
+  (c = 91 /\ is_arr f = false) \/ (c = 123 /\ is_obj f = false) ->
+  equals_true f = false -> project f v = JNull -> Fconcl cf d t v f.
+Proof.
+  intros cf nd d t v c r f J Et HC Hf PN L fuel s w rest W DL G HS D LF.
+  assert (V : vstart c) by (unfold vstart; destruct HC as [[-> _]|[-> _]]; tauto).
+  assert (S0 : stream s = w ++ c :: (r ++ rest)) by (rewrite HS, Et; reflexivity).
+  destruct (pv_enter cf w fuel s c _ W G S0 V ltac:(lens)) as (s1 & E1 & G1 & S1 & C1 & F1).
+  rewrite (pvf_skip_container cf fuel L f s s1 c Hf E1 C1 HC), PN.
+  assert (S2 : stream s1 = [] ++ t ++ rest) by (rewrite S1, Et; reflexivity).
+  destruct (skip_variant_complete_ws cf nd d t v J L fuel s1 [] rest ws_nil DL G1 S2 D ltac:(lens))
+    as (s' & E' & P' & F').
+  rewrite E'. exists s'. splits; auto. discriminate.
+Qed.
+
+(* ---- scalars ---- *)
+
+Lemma fcase_scalar : forall cf, decode_unicode cf = true ->
+  forall d t v c r, jvalueD (num_den cf) d t v -> t = c :: r -> vstart c -> c <> 91 -> c <> 123 ->
+  is_scalar v = true -> Fv cf d t v.
+Proof.
+  intros cf DU d t v c r J Et V N91 N123 SC f.
+  destruct (equals_true f) eqn:Hf.
+  - apply fconcl_true; assumption.
+  - eapply fconcl_scalar; eassumption.
+Qed.
+
+Lemma fcase_null : forall cf, decode_unicode cf = true ->
+  forall d, Fv cf d [110; 117; 108; 108] JNull.
+Proof.
+  intros cf DU d. eapply (fcase_scalar cf DU d _ _ 110); try reflexivity; try lia.
+  - constructor.
+  - unfold vstart; tauto.
+Qed.
+
+Lemma fcase_true : forall cf, decode_unicode cf = true ->
+  forall d, Fv cf d [116; 114; 117; 101] (JBool true).
+Proof.
+  intros cf DU d. eapply (fcase_scalar cf DU d _ _ 116); try reflexivity; try lia.
+  - constructor.
+  - unfold vstart; tauto.
+Qed.
+
+Lemma fcase_false : forall cf, decode_unicode cf = true ->
+  forall d, Fv cf d [102; 97; 108; 115; 101] (JBool false).
+Proof.
+  intros cf DU d. eapply (fcase_scalar cf DU d _ _ 102); try reflexivity; try lia.
+  - constructor.
+  - unfold vstart; tauto.
+Qed.
+
+Lemma fcase_num : forall cf, decode_unicode cf = true ->
+  forall d t v, jnumber t -> num_den cf t v -> Fv cf d t v.
+Proof.
+  intros cf DU d t v J N.
+  destruct (jnumber_chars cf t J) as [_ (c & r & Et & NS)].
+  assert (R : c = 45 \/ 48 <= c <= 57).
+  { destruct NS as [->|Dg]; [left; reflexivity|right; apply digit_range; exact Dg]. }
+  apply (fcase_scalar cf DU d t v c r); auto; try lia.
+  - apply vd_num; assumption.
+  - unfold vstart; tauto.
+  - eapply num_den_is_scalar; eassumption.
+Qed.
+
+Lemma fcase_str : forall cf, decode_unicode cf = true ->
+  forall d t str, jstring t str -> Fv cf d t (JStr str).
+Proof.
+  intros cf DU d t str J. pose proof J as (body & Et & _).
+  apply (fcase_scalar cf DU d t (JStr str) 34 (body ++ [34])); auto; try lia.
+  - apply vd_str; assumption.
+  - unfold vstart; tauto.
+Qed.
+
+(* ---- arrays ---- *)
+
+Lemma fcase_arr_empty : forall cf, decode_unicode cf = true ->
+  forall d w0, ws w0 -> Fv cf (S d) ([91] ++ w0 ++ [93]) (JArr []).
+Proof.
+  intros cf DU d w0 W0 f.
+  pose proof (vd_arr_empty (num_den cf) d w0 W0) as J.
+  destruct (equals_true f) eqn:Hf; [apply fconcl_true; assumption|].
+  destruct (is_arr f) eqn:IA.
+  2:{ apply (fconcl_container_skip cf _ _ _ _ 91 (w0 ++ [93]) f J); [reflexivity|tauto|exact Hf|].
+      rewrite project_arr by exact Hf. destruct f; try reflexivity; discriminate IA. }
+  destruct f as [| | | | | | |fl|]; try discriminate IA.
+  intros L fuel s w rest W DL G HS D LF.
+  destruct L as [|L]; [lia|].
+  rewrite <- !app_assoc in HS. cbn [app] in HS.
+  assert (V : vstart 91) by (unfold vstart; tauto).
+  destruct (pv_enter cf w fuel s 91 _ W G HS V ltac:(lens)) as (s1 & E1 & G1 & S1 & C1 & F1).
+  rewrite (pvf_arr cf fuel L fl s s1 E1 C1).
+  destruct (move_cons s1 91 _ G1 C1 S1) as (G2 & S2 & C2 & F2).
+  destruct (skip_ws cf w0 W0 fuel (move s1) 93 rest G2 S2 ltac:(lia) eq_refl ltac:(lia) ltac:(lens))
+    as (s3 & E3 & G3 & S3 & C3 & F3 & _).
+  rewrite E3. cbv beta iota.
+  destruct (eat_yes s3 93 rest G3 S3 ltac:(lia)) as (s4 & E4 & G4 & S4 & C4 & F4).
+  rewrite E4.
+  assert (PE : project (JArr fl) (JArr []) = JArr []).
+  { rewrite project_arr by reflexivity. destruct fl as [|e fl]; [reflexivity|].
+    destruct (truthy e); reflexivity. }
+  rewrite PE. exists s4. splits; auto.
+  - left; auto.
+  - congruence.
+  - discriminate.
+Qed.
+
+Lemma fcase_e_one : forall cf d w1 t v w2,
+  ws w1 -> Fv cf d t v -> ws w2 -> Fe cf d (w1 ++ t ++ w2) [v].
+Proof.
+  intros cf d w1 t v w2 W1 IH W2 e L fuel fl s rest acc T DL G HS LF LL.
+  rewrite <- !app_assoc in HS, LF, LL.
+  destruct fl as [|fl]; [lia|]. rewrite array_loop_S. cbn [f_allow]. rewrite T.
+  destruct (IH e L fuel s w1 (w2 ++ 93 :: rest) W1 DL G HS
+              (delimiter_ws_then cf w2 93 rest W2 ltac:(tauto)) LF) as (s1 & E1 & P1 & F1 & _).
+  rewrite E1. cbv beta iota.
+  edestruct (arr_step_close cf) as (s' & E' & R'); [exact W2|exact P1| |].
+  2:{ rewrite E'. exists s'. split; [reflexivity|exact R']. }
+  lens.
+Qed.
+
+Lemma fcase_e_cons : forall cf d w1 t v w2 r vs,
+  ws w1 -> Fv cf d t v -> ws w2 -> Fe cf d r vs -> Fe cf d (w1 ++ t ++ w2 ++ [44] ++ r) (v :: vs).
+Proof.
+  intros cf d w1 t v w2 r vs W1 IHv W2 IHr e L fuel fl s rest acc T DL G HS LF LL.
+  rewrite <- !app_assoc in HS, LF, LL. cbn [app] in HS, LF, LL.
+  destruct fl as [|fl]; [lia|]. rewrite array_loop_S. cbn [f_allow]. rewrite T.
+  destruct (IHv e L fuel s w1 (w2 ++ 44 :: r ++ 93 :: rest) W1 DL G HS
+              (delimiter_ws_then cf w2 44 _ W2 ltac:(tauto)) LF) as (s1 & E1 & P1 & F1 & _).
+  rewrite E1. cbv beta iota.
+  edestruct (arr_step_comma cf) as (s3 & E3 & G3 & S3 & C3 & F3); [exact W2|exact P1| |].
+  2:{ rewrite E3.
+      destruct (IHr e L fuel fl s3 rest (acc ++ [project e v]) T DL G3 S3 ltac:(lens) ltac:(lens))
+        as (s' & E' & R').
+      rewrite E'. exists s'. rewrite <- app_assoc. cbn [map app]. split; [reflexivity|exact R']. }
+  lens.
+Qed.
+
+Lemma fcase_arr : forall cf, decode_unicode cf = true ->
+  forall d te vs, jelementsD (num_den cf) d te vs -> Fe cf d te vs ->
+  Fv cf (S d) ([91] ++ te ++ [93]) (JArr vs).
+Proof.
+  intros cf DU d te vs J IH f.
+  pose proof (vd_arr (num_den cf) d te vs J) as JV.
+  destruct (equals_true f) eqn:Hf; [apply fconcl_true; assumption|].
+  destruct (is_arr f) eqn:IA.
+  2:{ apply (fconcl_container_skip cf _ _ _ _ 91 (te ++ [93]) f JV); [reflexivity|tauto|exact Hf|].
+      rewrite project_arr by exact Hf. destruct f; try reflexivity; discriminate IA. }
+  destruct f as [| | | | | | |fl|]; try discriminate IA.
+  intros L fuel s w rest W DL G HS D LF.
+  destruct L as [|L]; [lia|].
+  destruct fuel as [|fuel0]; [lia|].
+  rewrite <- !app_assoc in HS. cbn [app] in HS.
+  assert (V : vstart 91) by (unfold vstart; tauto).
+  destruct (pv_enter cf w (S fuel0) s 91 _ W G HS V ltac:(lens)) as (s1 & E1 & G1 & S1 & C1 & F1).
+  rewrite (pvf_arr cf (S fuel0) L fl s s1 E1 C1).
+  destruct (move_cons s1 91 _ G1 C1 S1) as (G2 & S2 & C2 & F2).
+  destruct (jelementsD_head _ _ _ _ J) as (w1 & c & r & W1 & Ete & Vc).
+  assert (S2' : stream (move s1) = w1 ++ c :: (r ++ 93 :: rest))
+    by (rewrite S2, Ete, <- app_assoc; reflexivity).
+  assert (LW : (length w1 < S fuel0)%nat) by (rewrite Ete in LF; lens).
+  destruct (pv_enter cf w1 (S fuel0) (move s1) c _ W1 G2 S2' Vc LW) as (s3 & E3 & G3 & S3 & C3 & F3).
+  rewrite E3. cbv beta iota.
+  destruct (vstart_props c Vc) as (_ & _ & _ & N93 & _).
+  rewrite (eat_no_some s3 c 93 C3 N93). cbv beta iota.
+  rewrite (array_loop_skip_gen cf (S fuel0) L fuel0 _ [] (move s1) s3 c E3 C3 F3 Vc).
+  rewrite project_arr by reflexivity.
+  destruct (truthy (hd JNull fl)) eqn:T.
+  - destruct (IH (hd JNull fl) L (S fuel0) (S fuel0) (move s1) rest [] T ltac:(lia) G2 S2
+                ltac:(lens) ltac:(lens)) as (s' & E' & G' & S' & C' & F').
+    rewrite E'. destruct fl as [|e fl]; [discriminate T|]. cbn [hd] in *. rewrite T.
+    exists s'. cbn [app]. splits; auto.
+    + left; auto.
+    + discriminate.
+  - rewrite array_loop_noallow by exact T.
+    destruct (proj1 (proj2 (skip_all cf (num_den cf))) d te vs J L (S fuel0) (S fuel0) (move s1) rest
+                ltac:(lia) G2 S2 ltac:(lens) ltac:(lens)) as (s' & E' & G' & S' & C' & F').
+    rewrite E'.
+    assert (PE : match fl with
+                 | [] => JArr []
+                 | e :: _ => if truthy e then JArr (map (project e) vs) else JArr []
+                 end = JArr []).
+    { destruct fl as [|e fl]; [reflexivity|]. cbn [hd] in T. rewrite T. reflexivity. }
+    rewrite PE. exists s'. splits; auto.
+    + left; auto.
+    + discriminate.
+Qed.
+
+(* ---- objects ---- *)
+
+Lemma fcase_obj_empty : forall cf, decode_unicode cf = true ->
+  forall d w0, ws w0 -> Fv cf (S d) ([123] ++ w0 ++ [125]) (JObj []).
+Proof.
+  intros cf DU d w0 W0 f.
+  pose proof (vd_obj_empty (num_den cf) d w0 W0) as J.
+  destruct (equals_true f) eqn:Hf; [apply fconcl_true; assumption|].
+  destruct (is_obj f) eqn:IO.
+  2:{ apply (fconcl_container_skip cf _ _ _ _ 123 (w0 ++ [125]) f J); [reflexivity|tauto|exact Hf|].
+      apply project_obj_other; assumption. }
+  destruct f as [| | | | | | | |fl]; try discriminate IO.
+  intros L fuel s w rest W DL G HS D LF.
+  destruct L as [|L]; [lia|].
+  rewrite <- !app_assoc in HS. cbn [app] in HS.
+  assert (V : vstart 123) by (unfold vstart; tauto).
+  destruct (pv_enter cf w fuel s 123 _ W G HS V ltac:(lens)) as (s1 & E1 & G1 & S1 & C1 & F1).
+  rewrite (pvf_obj cf fuel L fl s s1 E1 C1).
+  destruct (move_cons s1 123 _ G1 C1 S1) as (G2 & S2 & C2 & F2).
+  destruct (skip_ws cf w0 W0 fuel (move s1) 125 rest G2 S2 ltac:(lia) eq_refl ltac:(lia) ltac:(lens))
+    as (s3 & E3 & G3 & S3 & C3 & F3 & _).
+  rewrite E3. cbv beta iota.
+  destruct (eat_yes s3 125 rest G3 S3 ltac:(lia)) as (s4 & E4 & G4 & S4 & C4 & F4).
+  rewrite E4. rewrite project_obj. cbn [pgo]. exists s4. splits; auto.
+  - left; auto.
+  - congruence.
+  - discriminate.
+Qed.
+
+Lemma fcase_m_one : forall cf, decode_unicode cf = true ->
+  forall d w1 kt k w2 w3 t v w4,
+    ws w1 -> jstring kt k -> ws w2 -> ws w3 -> jvalueD (num_den cf) d t v -> Fv cf d t v -> ws w4 ->
+    Fm cf d (w1 ++ kt ++ w2 ++ [58] ++ w3 ++ t ++ w4) [(k, v)].
+Proof.
+  intros cf DU d w1 kt k w2 w3 t v w4 W1 JK W2 W3 J IH W4 flt L fuel fl s rest acc DL G HS LF LL.
+  rewrite <- !app_assoc in HS, LF, LL. cbn [app] in HS, LF, LL.
+  destruct fl as [|fl]; [lia|].
+  destruct (member_head cf DU w1 kt k w2 _ fl s W1 JK W2 G HS LL)
+    as (s1 & s2 & s3 & s4 & E1 & E2 & E3 & E4 & G4 & S4 & C4 & F4).
+  unfold obj_entry. rewrite E1, object_loop_S, E2. cbv beta iota. rewrite E3. cbv beta iota.
+  rewrite E4. cbn [negb]. cbv beta iota.
+  rewrite f_member_obj. cbn [f_allow]. rewrite pgo_cons.
+  assert (DLM : delimiter cf (w4 ++ 125 :: rest))
+    by (apply delimiter_ws_then; [exact W4|tauto]).
+  destruct (truthy (mfilt flt k)) eqn:T.
+  - destruct (IH (mfilt flt k) L fuel s4 w3 (w4 ++ 125 :: rest) W3 DL G4 S4 DLM ltac:(lens))
+      as (s5 & E5 & P5 & F5 & _).
+    rewrite E5. cbv beta iota.
+    edestruct (obj_after_close cf) as (s' & E' & R'); [exact W4|exact P5| |].
+    2:{ rewrite E'. exists s'. split; [reflexivity|exact R']. }
+    lens.
+  - destruct (skip_variant_complete_ws cf _ d t v J L fuel s4 w3 _ W3 DL G4 S4 DLM ltac:(lens))
+      as (s5 & E5 & P5 & F5).
+    rewrite E5. cbv beta iota.
+    edestruct (obj_after_close cf) as (s' & E' & R'); [exact W4|exact P5| |].
+    2:{ rewrite E'. exists s'. split; [reflexivity|exact R']. }
+    lens.
+Qed.
+
+Lemma fcase_m_cons : forall cf, decode_unicode cf = true ->
+  forall d w1 kt k w2 w3 t v w4 r ms,
+    ws w1 -> jstring kt k -> ws w2 -> ws w3 -> jvalueD (num_den cf) d t v -> Fv cf d t v -> ws w4 ->
+    Fm cf d r ms ->
+    Fm cf d (w1 ++ kt ++ w2 ++ [58] ++ w3 ++ t ++ w4 ++ [44] ++ r) ((k, v) :: ms).
+Proof.
+  intros cf DU d w1 kt k w2 w3 t v w4 r ms W1 JK W2 W3 J IHv W4 IHr flt L fuel fl s rest acc DL G HS LF LL.
+  rewrite <- !app_assoc in HS, LF, LL. cbn [app] in HS, LF, LL.
+  destruct fl as [|fl]; [lia|].
+  destruct (member_head cf DU w1 kt k w2 _ fl s W1 JK W2 G HS LL)
+    as (s1 & s2 & s3 & s4 & E1 & E2 & E3 & E4 & G4 & S4 & C4 & F4).
+  unfold obj_entry at 1. rewrite E1, object_loop_S, E2. cbv beta iota. rewrite E3. cbv beta iota.
+  rewrite E4. cbn [negb]. cbv beta iota.
+  rewrite f_member_obj. cbn [f_allow]. rewrite pgo_cons.
+  assert (DLM : delimiter cf (w4 ++ 44 :: r ++ 125 :: rest))
+    by (apply delimiter_ws_then; [exact W4|tauto]).
+  destruct (truthy (mfilt flt k)) eqn:T.
+  - destruct (IHv (mfilt flt k) L fuel s4 w3 _ W3 DL G4 S4 DLM ltac:(lens))
+      as (s5 & E5 & P5 & F5 & _).
+    rewrite E5. cbv beta iota.
+    edestruct (obj_after_comma cf) as (s7 & E7 & G7 & S7 & C7 & F7); [exact W4|exact P5| |].
+    2:{ rewrite E7.
+        destruct (IHr flt L fuel fl s7 rest (assoc_set k (project (mfilt flt k) v) acc) DL G7 S7
+                    ltac:(lens) ltac:(lens)) as (s' & E' & R').
+        rewrite E'. exists s'. split; [reflexivity|exact R']. }
+    lens.
+  - destruct (skip_variant_complete_ws cf _ d t v J L fuel s4 w3 _ W3 DL G4 S4 DLM ltac:(lens))
+      as (s5 & E5 & P5 & F5).
+    rewrite E5. cbv beta iota.
+    edestruct (obj_after_comma cf) as (s7 & E7 & G7 & S7 & C7 & F7); [exact W4|exact P5| |].
+    2:{ rewrite E7.
+        destruct (IHr flt L fuel fl s7 rest acc DL G7 S7 ltac:(lens) ltac:(lens)) as (s' & E' & R').
+        rewrite E'. exists s'. split; [reflexivity|exact R']. }
+    lens.
+Qed.
+
+Lemma fcase_obj : forall cf, decode_unicode cf = true ->
+  forall d te ms, jmembersD (num_den cf) d te ms -> Fm cf d te ms ->
+  Fv cf (S d) ([123] ++ te ++ [125])
+     (JObj (fold_left (fun acc m => assoc_set (fst m) (snd m) acc) ms [])).
+Proof.
+  intros cf DU d te ms J IH f.
+  pose proof (vd_obj (num_den cf) d te ms J) as JV.
+  destruct (equals_true f) eqn:Hf; [apply fconcl_true; assumption|].
+  destruct (is_obj f) eqn:IO.
+  2:{ apply (fconcl_container_skip cf _ _ _ _ 123 (te ++ [125]) f JV); [reflexivity|tauto|exact Hf|].
+      apply project_obj_other; assumption. }
+  destruct f as [| | | | | | | |flt]; try discriminate IO.
+  intros L fuel s w rest W DL G HS D LF.
+  destruct L as [|L]; [lia|].
+  rewrite <- !app_assoc in HS. cbn [app] in HS.
+  assert (V : vstart 123) by (unfold vstart; tauto).
+  destruct (pv_enter cf w fuel s 123 _ W G HS V ltac:(lens)) as (s1 & E1 & G1 & S1 & C1 & F1).
+  rewrite (pvf_obj cf fuel L flt s s1 E1 C1).
+  destruct (move_cons s1 123 _ G1 C1 S1) as (G2 & S2 & C2 & F2).
+  destruct (jmembersD_head _ _ _ _ J) as (w1 & r & W1 & Ete).
+  assert (S2' : stream (move s1) = w1 ++ 34 :: (r ++ 125 :: rest))
+    by (rewrite S2, Ete, <- app_assoc; reflexivity).
+  assert (LW : (length w1 < fuel)%nat) by (rewrite Ete in LF; lens).
+  destruct (skip_ws cf w1 W1 fuel (move s1) 34 _ G2 S2' ltac:(lia) eq_refl ltac:(lia) LW)
+    as (s3 & E3 & G3 & S3 & C3 & F3 & _).
+  rewrite E3. cbv beta iota.
+  rewrite (eat_no_some s3 34 125 C3 ltac:(lia)). cbv beta iota.
+  destruct (IH flt L fuel fuel (move s1) rest [] ltac:(lia) G2 S2 ltac:(lens) ltac:(lens))
+    as (s' & E' & G' & S' & C' & F').
+  unfold obj_entry in E'. rewrite E3 in E'.
+  rewrite E'. rewrite project_obj.
+  change (fold_left (fun acc m => assoc_set (fst m) (snd m) acc) ms []) with (obj_den ms []).
+  rewrite pgo_obj_den. cbn [pgo].
+  exists s'. splits; auto.
+  - left; auto.
+  - discriminate.
+Qed.
+
+(* ---- tying the knot ---- *)
+
+Lemma filter_all : forall cf, decode_unicode cf = true ->
+  (forall d t v, jvalueD (num_den cf) d t v -> Fv cf d t v) /\
+  (forall d t vs, jelementsD (num_den cf) d t vs -> Fe cf d t vs) /\
+  (forall d t ms, jmembersD (num_den cf) d t ms -> Fm cf d t ms).
+Proof.
+  intros cf DU. apply jvalueD_mutind.
+  - intro d. apply fcase_null; assumption.
+  - intro d. apply fcase_true; assumption.
+  - intro d. apply fcase_false; assumption.
+  - intros d t v J N. apply fcase_num; assumption.
+  - intros d t s J. apply fcase_str; assumption.
+  - intros d w W. apply fcase_arr_empty; assumption.
+  - intros d t vs J IH. apply fcase_arr; assumption.
+  - intros d w W. apply fcase_obj_empty; assumption.
+  - intros d t ms J IH. apply fcase_obj; assumption.
+  - intros d w1 t v w2 W1 _ IH W2. apply fcase_e_one; assumption.
+  - intros d w1 t v w2 r vs W1 _ IHv W2 _ IHr. apply fcase_e_cons; assumption.
+  - intros d w1 kt k w2 w3 t v w4 W1 JK W2 W3 J IH W4. apply fcase_m_one; assumption.
+  - intros d w1 kt k w2 w3 t v w4 r ms W1 JK W2 W3 J IHv W4 _ IHr. apply fcase_m_cons; assumption.
+Qed.
+
+(* general form: leading whitespace allowed; after a kept number the latch holds the byte that follows *)
+Theorem parse_filtered_is_projection_ws : forall cf, decode_unicode cf = true ->
+  forall d t v, jvalueD (num_den cf) d t v ->
+  forall f L fuel s w rest,
+    ws w -> (d <= L)%nat -> good s -> stream s = w ++ t ++ rest -> delimiter cf rest ->
+    (length (w ++ t ++ rest) < fuel)%nat ->
+    exists s', parse_variant cf fuel L (Some f) s = (Ok, project f v, s') /\ post s' rest /\
+               found s' = true /\ (is_number (project f v) = true -> lastc s' = hd 0 rest).
+Proof. intros cf DU d t v J f. exact (proj1 (filter_all cf DU) d t v J f). Qed.
+
+Theorem parse_filtered_is_projection : forall cf, decode_unicode cf = true ->
+  forall d t v, jvalueD (num_den cf) d t v ->
+  forall f L fuel s rest, (d <= L)%nat -> good s -> stream s = t ++ rest -> delimiter cf rest ->
+    (length (t ++ rest) < fuel)%nat ->
+    exists s', parse_variant cf fuel L (Some f) s = (Ok, project f v, s') /\ post s' rest /\ found s' = true.
+Proof.
+  intros cf DU d t v J f L fuel s rest DL G HS D LF.
+  destruct (parse_filtered_is_projection_ws cf DU d t v J f L fuel s [] rest ws_nil DL G HS D LF)
+    as (s' & E & P & F & _).
+  exists s'. auto.
+Qed.
+
+Corollary json_run_filtered : forall cf, decode_unicode cf = true ->
+  forall d i v, jtextD (num_den cf) d i v -> forall f L, (d <= L)%nat ->
+  j_err (json_run cf (Some f) L i) = Ok /\ j_doc (json_run cf (Some f) L i) = project f v.
+Proof.
+  intros cf DU d i v (w1 & tv & w2 & Ei & W1 & J & W2) f L DL.
+  assert (HS : stream (ps_init i) = w1 ++ tv ++ w2) by (rewrite stream_init; exact Ei).
+  assert (LF : (length (w1 ++ tv ++ w2) < json_fuel i)%nat) by (rewrite <- Ei; unfold json_fuel; lia).
+  destruct (parse_filtered_is_projection_ws cf DU d tv v J f L (json_fuel i) (ps_init i) w1 w2 W1 DL
+              (good_init i) HS (delimiter_ws cf w2 W2) LF) as (s' & E & P & F & LC).
+  unfold json_run. rewrite E. cbn [j_err j_doc]. split; [|reflexivity].
+  destruct (is_number (project f v)) eqn:NV; [|rewrite andb_false_r; reflexivity].
+  rewrite (LC eq_refl).
+  destruct W2 as [|b w2 Hb W2]; cbn [hd].
+  - reflexivity.
+  - rewrite <- is_ws_space, Hb. cbn [negb]. rewrite andb_false_r. reflexivity.
+Qed.
